@@ -19,6 +19,7 @@ package core
 import (
 	"errors"
 	"fmt"
+	"reflect"
 	"strings"
 	"time"
 	// "code.google.com/p/rog-go/exp/deepcopy" // Broken
@@ -531,3 +532,12 @@ func checkExpiration(ctx *Context, fact map[string]interface{}, unixNow int64) (
 // to hide behind.
 //
 //  --Douglas MacArthur, reported in William A. Ganoe's MacArthur Close-Up
+
+// sameRuleBody reports whether the two maps are the same object (not
+// just equal).
+func sameRuleBody(a, b Map) bool {
+	if a == nil || b == nil {
+		return false
+	}
+	return reflect.ValueOf(map[string]interface{}(a)).Pointer() == reflect.ValueOf(map[string]interface{}(b)).Pointer()
+}
